@@ -263,6 +263,12 @@ def py_namedtuple(name, fields, defaults=None, **kw):
     return make
 
 
+def _defaultdict(factory=None, *a, **k):
+    import collections
+
+    return collections.defaultdict((lambda: factory()) if factory is not None else None, *a, **k)
+
+
 def install(theories, interp):
     def py_reduce(fn, seq, *init):
         seq = list(seq)
@@ -277,7 +283,7 @@ def install(theories, interp):
         return acc
 
     theories["functools"] = {"reduce": py_reduce}
-    theories["collections"] = {"namedtuple": py_namedtuple, "defaultdict": lambda *a, **k: dict()}
+    theories["collections"] = {"namedtuple": py_namedtuple, "defaultdict": _defaultdict}
     theories["elexsolver.QuantileRegressionSolver"] = {"QuantileRegressionSolver": qr_factory(interp)}
     sc = make_scipy(interp)
     theories["scipy"] = {"stats": sc}
